@@ -18,14 +18,14 @@ import (
 // ---------------------------------------------------------------- C14: print / parse / print / evaluate
 
 type c14case struct {
-	K    string `json:"k"`              // "path" | "eq"
-	Cell string `json:"cell"`           // the generator's coordinates (fragment kinds, key class, position / operator triple)
-	Fr   []Frag `json:"fr,omitempty"`   // path: fragments after the first
-	Root string `json:"root,omitempty"` // path: "$", "@" or "" (relative)
-	Ast  *AST   `json:"ast,omitempty"`  // eq
-	Elem *Abs   `json:"elem,omitempty"` // eq: the element the script is matched against
-	Wrap int    `json:"wrap,omitempty"` // eq: 1 = the tree of interest is ast.l (an arithmetic tree compared with a constant)
-	Alt   bool   `json:"alt,omitempty"` // txt: write the regex operator in its other spelling (~=)
+	K     string `json:"k"`               // "path" | "eq"
+	Cell  string `json:"cell"`            // the generator's coordinates (fragment kinds, key class, position / operator triple)
+	Fr    []Frag `json:"fr,omitempty"`    // path: fragments after the first
+	Root  string `json:"root,omitempty"`  // path: "$", "@" or "" (relative)
+	Ast   *AST   `json:"ast,omitempty"`   // eq
+	Elem  *Abs   `json:"elem,omitempty"`  // eq: the element the script is matched against
+	Wrap  int    `json:"wrap,omitempty"`  // eq: 1 = the tree of interest is ast.l (an arithmetic tree compared with a constant)
+	Alt   bool   `json:"alt,omitempty"`   // txt: write the regex operator in its other spelling (~=)
 	Items []Item `json:"items,omitempty"` // txt: the script text as items (the TLA+ side derives the intended tree from them)
 }
 
@@ -173,8 +173,8 @@ type c14event struct {
 	Same bool     `json:"same"` // the re-parsed expression is structurally identical to the original (reflect.DeepEqual)
 	Eos  []string `json:"eos"`  // distinct results of evaluating the original several times (Get may depend on map order)
 	Ers  []string `json:"ers"`  // the same for the re-parsed expression
-	To   any      `json:"to"` // structure of the original script's program (shapeOf), {"op":"?"} when not available
-	Tr   any      `json:"tr"` // the same for the re-parsed script
+	To   any      `json:"to"`   // structure of the original script's program (shapeOf), {"op":"?"} when not available
+	Tr   any      `json:"tr"`   // the same for the re-parsed script
 	Case *c14case `json:"case"`
 }
 
